@@ -11,6 +11,7 @@ package main
 import (
 	"fmt"
 	"go/token"
+	"go/types"
 
 	"golang.org/x/tools/go/ssa"
 )
@@ -123,6 +124,16 @@ func (p *Program) guardEvalDepth(fn *ssa.Function, spec guardSpec, cell map[stri
 				}
 				continue
 			case *ssa.BinOp:
+				// a nil test of one of the evaluated function's own parameters: callers pass live objects (see IG.nilArgEdges)
+				if x.Op == token.EQL || x.Op == token.NEQ {
+					if prm, isP := strip(x.X).(*ssa.Parameter); isP && isNilConst(x.Y) && prm.Parent() == fn {
+						switch prm.Type().Underlying().(type) {
+						case *types.Pointer, *types.Interface, *types.Map, *types.Slice, *types.Signature, *types.Chan:
+							s.env[x] = gval{known: true, isB: true, b: x.Op == token.NEQ}
+							continue
+						}
+					}
+				}
 				a, b := val(s.env, x.X), val(s.env, x.Y)
 				if a.known && b.known {
 					r := gval{known: true, isB: true}
